@@ -227,6 +227,29 @@ def golden_cases(res, base, r):
                     })
 
 
+def golden_cc_cases(res, base):
+    """The same rule for the cross-check command's golden run."""
+    text = ('(declare-const a Int)\n(declare-const b Int)\n'
+            '(assert (> a 1))\n(assert (< b 2))\n(check-sat)\n')
+    rules = realrun.simple_spec('has:a')
+    cc_rules = realrun.simple_spec('has:b', 0, 'cc says sat\n', 'cc err\n')
+    for opt in ('--match-out-cc', '--match-err-cc'):
+        run = realrun.run_ddsmt(os.path.join(base, f'gcc{opt}'), text, rules,
+                                cc_spec=cc_rules, entry='module',
+                                opts=[opt, 'NOT-THERE', '--timeout', '5',
+                                      '--timeout-cc', '5'])
+        res.count('evaluations')
+        res.count('match_string_cases')
+        ncand = sum(1 for e in run.cmdlog
+                    if not e['argv'][-1].endswith('in.smt2'))
+        if run.rc != 1 or ncand or run.out_bytes is not None:
+            res.violation(
+                'golden-match-string-not-enforced:cross-check',
+                f'{opt} absent from the golden output of the cross-check '
+                f'command: exit status {run.rc}, {ncand} candidates tested',
+                {'opt': opt, 'stderr': run.stderr[-400:]})
+
+
 def shard(args):
     res = common.ShardResult()
     r = common.rng('c10', args['shard'])
@@ -234,6 +257,8 @@ def shard(args):
     try:
         if args['shard'] == 0:
             golden_cases(res, base, r)
+        if args['shard'] == 1:
+            golden_cc_cases(res, base)
         for i in range(args['n']):
             text, rules, opts, limit, desc = make_case(r)
             wd = os.path.join(base, f'run{i}')
